@@ -254,6 +254,7 @@ package allocation
 //@   ensures [C15,C16:tcp-gone] old(!closed(a.closed)) ==> forall k :: !haskey(a.tcpConnections, k)
 //@   ensures [C15:relay-closed] old(!closed(a.closed)) && (a.relayPacketConn != nil || a.relayListener != nil) ==> socketsClosed >= old(socketsClosed) + 1
 //@   ensures [C15:no-new-state] forall k :: haskey(a.permissions, k) ==> old(haskey(a.permissions, k))
+//@   ensures [C15:stays-closed] forall ch :: old(closed(ch)) ==> closed(ch)
 //@   assigns channels, timers, socketsClosed, entries(a.tcpConnections), entries(a.permissions), a.channelBindings, mem(a.channelBindings)
 //@   loop 0 invariant closeReady(a) && closed(a.closed) && !armed(a.lifetimeTimer) && socketsClosed >= old(socketsClosed)
 //@   loop 0 invariant forall k :: seenkey(k) ==> !haskey(a.tcpConnections, k)
@@ -400,11 +401,20 @@ package allocation
 //@      // balance / unlock-of-held / no-self-deadlock / lock order obligations are generated for these bodies)
 //@ func (*Manager).AllocationCount
 //@   lockonly
-//@ func (*Manager).Close
-//@   lockonly
 //@ func (*Manager).CreateReservation
 //@   lockonly
 //@ func (*Manager).CreateReservation$1
 //@   lockonly
 //@ func (*Manager).RemoveTCPConnection
 //@   lockonly
+
+//@      // ---- C15: closing the manager closes every allocation, whatever errors individual Close calls return.
+//@      // Distinct allocations own distinct tables (each is created with fresh maps and an empty binding slice).
+//@ spec func mgrCloseReady(m *Manager) bool = m != nil && (forall k :: haskey(m.allocations, k) ==> valat(m.allocations, k) != nil && closeReady(valat(m.allocations, k)))
+//@ spec func mgrSep(m *Manager) bool = forall j, k :: haskey(m.allocations, j) && haskey(m.allocations, k) && j != k ==> valat(m.allocations, j) != valat(m.allocations, k) && valat(m.allocations, j).permissions != valat(m.allocations, k).permissions && valat(m.allocations, j).tcpConnections != valat(m.allocations, k).tcpConnections && (len(valat(m.allocations, j).channelBindings) == 0 || len(valat(m.allocations, k).channelBindings) == 0 || base(valat(m.allocations, j).channelBindings) != base(valat(m.allocations, k).channelBindings))
+//@ func (*Manager).Close
+//@   requires mgrCloseReady(m) && mgrSep(m) && !held(m.lock) && !rheld(m.lock)
+//@   ensures [C15:closes-every-allocation] forall k :: haskey(m.allocations, k) ==> closed(valat(m.allocations, k).closed)
+//@   loop 0 invariant held(m.lock) && m != nil && mgrSep(m) && (forall k :: haskey(m.allocations, k) ==> valat(m.allocations, k) != nil) && (forall k :: haskey(m.allocations, k) && !seenkey(k) ==> closeReady(valat(m.allocations, k)))
+//@   loop 0 invariant forall k :: seenkey(k) && haskey(m.allocations, k) ==> closed(valat(m.allocations, k).closed)
+//@   loop 0 invariant forall k :: haskey(m.allocations, k) == old(haskey(m.allocations, k)) && valat(m.allocations, k) == old(valat(m.allocations, k))
